@@ -133,11 +133,11 @@ for d in sorted((V / 'seeded').iterdir()):
                 cls = r.split('class=')[1].split(' ')[0]
         caught = f"{x['check']} {x.get('tier', 'quick')} ({cls}, {x['seconds']} s)"
     elif m.get('history', '').startswith('NOT caught, by decision'):
-        caught = 'not caught (outside the properties\' quantifiers, see meta.json)'
+        caught = 'not caught (by decision, see meta.json)'
     else:
         caught = 'MISSED by ' + ', '.join(x['check'] for x in m.get('missed_by', []))
     h = m.get('history', '')
-    first = 'missed -> strengthened' if h.startswith(('First missed', 'Hard one', 'Same mechanism')) else ('needed another check / fault kind' if h.startswith('Registered') else ('-' if h.startswith('NOT caught') else 'caught'))
+    first = 'missed -> strengthened' if h.startswith(('First missed', 'Hard one', 'Same mechanism', 'First run ended', 'First "caught"')) else ('needed another check / fault kind' if h.startswith('Registered') else ('-' if h.startswith('NOT caught') else 'caught'))
     if m.get('history', '').startswith('Caught by the Local profile'):
         first = 'caught (by a profile built meanwhile)'
     rows.append(f"| {d.name} | {SUMMARY.get(d.name, m.get('summary', ''))} | {caught} | {first} |")
